@@ -13,7 +13,7 @@ for i in range(1, 21):
     rules = ev.get("coverage", {}).get("rules") or ev.get("rules") or {}
     cur = fl.setdefault(pid, {})
     for r, n in rules.items():
-        if n >= 1 and r not in cur:
+        if n >= 1 and r not in cur and ".escape:" not in r:  # (escape rules are per-site discharges: the site may legitimately disappear)
             cur[r] = 1
             added += 1
     fl[pid] = dict(sorted(cur.items()))
